@@ -585,9 +585,11 @@ impl SequenceMatcher {
                 // This maintains the two-pointer invariant (b_ptr points to the last B that could match)
                 b_ptr = latest_b_ptr;
             } else {
-                // B is not before A (ts_b >= ts_a), advance b_ptr to find earlier B events
-                // Since indices are sorted by timestamp, we need to advance b_ptr
-                b_ptr += 1;
+                // B is not before A (ts_b >= ts_a). b_ptr only ever rests on a B that preceded the
+                // previous A (or on the first B), and B rows are sorted ascending, so no B precedes
+                // this A: leave it unmatched and move to the next A. (Advancing b_ptr here would skip
+                // past every B and drop the matches of all later A events in the group.)
+                a_ptr += 1;
             }
         }
 
